@@ -20,6 +20,79 @@ THIS = ("this",)
 CHILDREN = ("m", THIS, "children_")
 
 
+def _w2_ok(u, v):
+    return L.is_this(u, v) or L.is_nullptr(u, v) or (T.unwrap(u, v) or {}).get("k") == "unop"
+
+
+def _lambda_param_args(u, fn, v):
+    """v refers to a parameter of a local, named, non-generic lambda of fn: the argument expressions at that position of every
+    call of the lambda in fn ([] when the lambda is used in any other way); None when v is not such a parameter"""
+    r = T.unwrap(u, v)
+    if r is None or r.get("k") != "ref" or r.get("dk") != "param":
+        return None
+    for var in F.walk(fn.get("body"), into_lambdas=True):
+        li = T.unwrap(u, var.get("init")) if var.get("k") == "var" and var.get("init") is not None else None
+        if li is None or li.get("k") != "lambda" or len(li.get("ops", [])) != 1:
+            continue
+        ps = li["ops"][0].get("params", [])
+        idx = [i for (i, p) in enumerate(ps) if p.get("id") == r.get("id")]
+        if not idx:
+            continue
+        uses = [n for n in F.walk(fn.get("body"), into_lambdas=True) if n.get("k") == "ref" and n.get("id") == var["id"]]
+        calls = [n for n in F.walk(fn.get("body"), into_lambdas=True) if n.get("k") == "call" and n.get("opcall") == "()"
+                 and (T.unwrap(u, n.get("recv")) or {}).get("id") == var["id"] and len(n.get("args", [])) == len(ps)]
+        if len(calls) != len(uses) or not calls:
+            return []
+        return [c["args"][idx[0]] for c in calls]
+    return None
+
+
+def _iterator_loop(u, st, defs):
+    """`for (It it(FIRST); it != LAST; ++it)` -> (FIRST, LAST) as shown terms (locals substituted); None for any other loop"""
+    init = st.get("init")
+    vs = [v for v in (init or {}).get("ch", []) if v.get("k") == "var"] if init is not None and init.get("k") == "decl" else []
+    if len(vs) != 1 or vs[0].get("init") is None:
+        return None
+    vid = vs[0]["id"]
+    cond, inc = T.unwrap(u, st.get("cond")), T.unwrap(u, st.get("inc"))
+    if cond is None or inc is None:
+        return None
+
+    def is_it(n):
+        n = T.unwrap(u, n)
+        return n is not None and n.get("k") == "ref" and n.get("id") == vid
+    neg = False
+    if cond.get("k") == "unop" and cond.get("op") == "!":      # C++20 rewrites a != b as !(a == b)
+        cond, neg = T.unwrap(u, cond.get("e")), True
+        if cond is None:
+            return None
+    ops = ([cond.get("recv")] if cond.get("recv") is not None else []) + list(cond.get("args", [])) if cond.get("k") == "call" else [cond.get("l"), cond.get("r")]
+    cop = cond.get("opcall") if cond.get("k") == "call" else cond.get("op")
+    if neg:
+        cop = {"==": "!=", "!=": "=="}.get(cop)
+    if cop != "!=" or len(ops) != 2 or not (is_it(ops[0]) != is_it(ops[1])):
+        return None
+    last = ops[1] if is_it(ops[0]) else ops[0]
+    iop = inc.get("opcall") if inc.get("k") == "call" else inc.get("op")
+    itarget = inc.get("recv") if inc.get("k") == "call" and inc.get("recv") is not None else (inc.get("args") or [None])[0] if inc.get("k") == "call" else inc.get("e")
+    if iop != "++" or not is_it(itarget):
+        return None
+    # the body must not move the iterator itself
+    for n in F.walk(st.get("body")):
+        if n.get("k") in ("assign", "compound_assign") and is_it(n.get("l")):
+            return None
+        if n.get("k") in ("unop",) and n.get("op") in ("++", "--") and is_it(n.get("e")):
+            return None
+        if n.get("k") == "call" and n.get("opcall") in ("++", "--", "=", "+=", "-=") and is_it(n.get("recv") if n.get("recv") is not None else (n.get("args") or [None])[0]):
+            return None
+    first = vs[0]["init"]
+    f0 = T.unwrap(u, first)
+    if f0 is not None and f0.get("k") == "construct" and len(f0.get("args", [])) == 1:
+        first = f0["args"][0]
+    show = lambda x: T.show(T.norm(u, x, defs)).replace(" ", "")
+    return (show(first), show(last))
+
+
 def _nest_early_returns(stmts):
     """`if (a) { x; return; } rest...` in a void function is `if (a) { x; } else { rest... }`: rebuild the nested form so that a rule sees
     one decision tree whichever way the author wrote it (synthetic nodes; the originals are not modified)"""
@@ -84,9 +157,19 @@ def main(rep, tier, only):
             v = w.get("value")
             if w["how"] != "assign":
                 rep.fail("TREE-W2", wk, u.loc(w["node"]["loc"]), F.describe(fn), why="parent_ of another node is modified through %s" % w["how"])
-            elif L.is_this(u, v) or L.is_nullptr(u, v) or (T.unwrap(u, v) or {}).get("k") == "unop":
+            elif _w2_ok(u, v):
                 rep.ok("TREE-W2", wk, u.loc(w["node"]["loc"]), F.describe(fn),
                        how="=this" if L.is_this(u, v) else ("=nullptr" if L.is_nullptr(u, v) else "=&owner"))
+            elif _lambda_param_args(u, fn, v) is not None:
+                # written inside a local helper lambda from one of its parameters: the rule applies to the argument of every call
+                args = _lambda_param_args(u, fn, v)
+                bad = [a for a in args if not _w2_ok(u, a)]
+                if not args:
+                    rep.broken("TREE-W2: %s assigns parent_ from the parameter of a local lambda whose calls are not visible (%s)" % (key, u.loc(w["node"]["loc"])))
+                elif bad:
+                    rep.fail("TREE-W2", wk, u.loc(w["node"]["loc"]), F.describe(fn), why="parent_ assigned (through a local lambda) from %s" % T.show(T.norm(u, bad[0])))
+                else:
+                    rep.ok("TREE-W2", wk, u.loc(w["node"]["loc"]), F.describe(fn), how="=this / =&owner at every call of the local helper")
             else:
                 rep.fail("TREE-W2", wk, u.loc(w["node"]["loc"]), F.describe(fn), why="parent_ assigned from %s" % T.show(T.norm(u, v)))
         # ---- P1: children_ replaced
@@ -110,7 +193,7 @@ def main(rep, tier, only):
             else:
                 # swap and friends: both lists must be re-parented afterwards in the same function
                 body = fn.get("body")
-                stmts = body.get("ch", []) if body else []
+                stmts = T.inline_local_lambda_calls(u, body.get("ch", []) if body else [])   # a local helper lambda stands for its body
                 loops = L.reparent_loops(u, stmts, "parent_", None)
                 other = None
                 if w["how"] == "call:swap" and w.get("args"):
@@ -247,12 +330,22 @@ def main(rep, tier, only):
             asg = [T.show(T.norm(u, x, defs)).replace(" ", "") for x in F.walk(thn, into_lambdas=False) if x.get("k") in ("assign", "call") and "current_" in T.show(T.norm(u, x.get("l") or x.get("recv") or x, defs))[:40]]
             if not why and not any("front()" in a for a in asg):
                 why = "after descending the current node is not the first child (%s)" % asg
-            rf = [x for x in F.walk(thn, into_lambdas=False) if x.get("k") == "range_for"]
+            rf = [x for x in F.walk(thn, into_lambdas=False) if x.get("k") in ("range_for", "for")]
             if not why:
-                rng = T.show(T.norm(u, rf[0].get("range"), defs)).replace(" ", "") if len(rf) == 1 else ""
-                if not ("rbegin()" in rng and "prev(" in rng and "rend()" in rng):
+                # the pushed range [first, last): `for (e : make_range(first, last))` or `for (it(first); it != last; ++it)`
+                rng, lbody = "", None
+                if len(rf) == 1 and rf[0]["k"] == "range_for":
+                    rng, lbody = T.show(T.norm(u, rf[0].get("range"), defs)).replace(" ", ""), rf[0].get("body")
+                elif len(rf) == 1:
+                    lp = _iterator_loop(u, rf[0], defs)
+                    if lp is None:
+                        rep.broken("TREE-PRE: the loop over the remaining children at %s is not a plain iterator loop (init; it != last; ++it)" % u.loc(rf[0]["loc"]))
+                        continue
+                    rng, lbody = "range(%s,%s)" % lp, rf[0].get("body")
+                m2 = re.match(r"^[\w:]+\((.+)\.rbegin\(\),(?:std::)?prev\((.+)\.rend\(\)(?:,1)?\)\)$", rng)
+                if not (m2 and m2.group(1) == m2.group(2)):
                     why = "the remaining children are not pushed in reverse order without the first one (range %s)" % rng
-                elif not any((T.callee_qn(u, x) or "").endswith("::push") for x in F.walk(rf[0].get("body")) if x.get("k") == "call"):
+                elif not any((T.callee_qn(u, x) or "").endswith("::push") for x in F.walk(lbody) if x.get("k") == "call"):
                     why = "the remaining children are not pushed onto the position stack"
             els = top.get("else")
             if not why:
